@@ -669,6 +669,7 @@ int main(int argc, char **argv) {
     }
     close(pfd[0]);
     int st = 0; waitpid(pid, &st, 0);
+    if (const char *rawf = getenv("VDRV_RAW")) { FILE *rf = fopen(rawf, "a"); if (rf) { fwrite(all.data(), 1, all.size(), rf); fclose(rf); } }
     std::istringstream is(all); std::string l;
     std::string asan_kind; std::vector<std::string> frames; std::vector<std::string> reports;
     std::vector<std::string> other;
